@@ -376,6 +376,44 @@ func (e *execEngine) step(ws []string) string {
 			return "bad-op"
 		}
 		return e.blockAt(h, ws[2:])
+	case "lrollback": // lrollback <t> : Ledger.Rollback(t) on every (stopped) replica, then a start
+		if len(ws) != 2 || len(e.nodes) == 0 || e.pipe != nil {
+			return "bad-op"
+		}
+		t, err := strconv.ParseUint(ws[1], 10, 64)
+		if err != nil {
+			return "bad-op"
+		}
+		out := ""
+		for i, n := range e.nodes {
+			res := "ok"
+			if err := n.ldg.Rollback(t); err != nil {
+				switch {
+				case strings.Contains(err.Error(), "higher"):
+					res = "err:higher"
+				case strings.Contains(err.Error(), "too much"):
+					res = "err:too-much"
+				default:
+					res = "err:" + errClass(err.Error())
+				}
+			}
+			if err := n.reopen(); err != nil {
+				// chain and state ledger no longer fit together: the node does not start
+				return fmt.Sprintf("%s NODE-DOES-NOT-START[%d] %s", res, i, errClass(err.Error()))
+			}
+			m := n.ldg.GetChainMeta()
+			line := fmt.Sprintf("%s h=%d", res, m.Height)
+			if m.Height != n.exec.VerifHeight() || n.ldg.Version() != m.Height {
+				line += fmt.Sprintf(" STORES-DISAGREE chain=%d state=%d executor=%d", m.Height, n.ldg.Version(), n.exec.VerifHeight())
+			}
+			line += " ## hash=" + short(m.BlockHash)
+			if i == 0 {
+				out = line
+			} else if line != out {
+				out += fmt.Sprintf(" REPLICA-DIVERGED[%d] %s", i, line)
+			}
+		}
+		return out
 	case "q":
 		return e.query(ws[1:]) + e.pipeDrain(0)
 	case "restart":
